@@ -1,6 +1,7 @@
 import Abmarl.Props.C08Base
 import Abmarl.Props.C03Base
 import Abmarl.Lemmas.VitalsDecl
+import Abmarl.Props.C08Grid
 /-!
 # C08, grid-world state components: a reset restores every agent, whatever happened before
 
